@@ -36,6 +36,9 @@ impl SnmpPriv for Aes128Key {
             return Err(SnmpError::InvalidKey);
         }
         self.key.copy_from_slice(&key[..KEY_LENGTH]);
+        #[cfg(gufo_snmp_verif)]
+        let mut rng = crate::verif::rng();
+        #[cfg(not(gufo_snmp_verif))]
         let mut rng = rand::rng();
         self.salt_value = rng.random();
         Ok(())
